@@ -309,11 +309,12 @@ TOOL_TIMEOUT = 20
 _ALL_CPUS = None
 
 
-def _narrow(k=2):
+def _narrow(k=1):
     """Restrict this worker (and so the tool it starts next) to k randomly
     chosen CPUs: the tool's thread pool creates one thread per allowed CPU
-    (~40 ms of start-up on 16); never a fixed CPU, some other job may be
-    spinning on it."""
+    (~40 ms of start-up on 16, and every extra thread costs a spinning
+    hand-shake); a different CPU for every run, some other job may be spinning
+    on any one of them."""
     global _ALL_CPUS
     try:
         if _ALL_CPUS is None:
@@ -340,7 +341,7 @@ def tool(conv, ctx, args, inp, out, must_succeed=True):
     r = None
     for attempt in range(3):
         Ctx.nruns += 1
-        _narrow(2 if attempt == 0 else 4)
+        _narrow(1 if attempt == 0 else 4)
         try:
             r = subprocess.run(cmd, stdin=subprocess.DEVNULL,
                                stdout=subprocess.PIPE,
@@ -1375,7 +1376,7 @@ class Case:
 
 
 def graph_case(name, fn, ty, variants=(None,), qb=(3, 3), tb=(3, 4),
-               vname=str):
+               vname=str, key=None):
     """fn(conv, ctx, n, edges, ty, variant) on every enumerated graph x
     variant"""
     typed = ty != "void"
@@ -1396,7 +1397,7 @@ def graph_case(name, fn, ty, variants=(None,), qb=(3, 3), tb=(3, 4),
         return gstr(n, edges) + " edgeType=" + ty + \
             ("" if var is None else " " + vname(var))
 
-    key = name.split(" edgeType=")[0]  # violation keys: "<option>:<symptom>"
+    key = key or name.split(" ")[0]  # violation keys: "<option>:<symptom>"
 
     def run(idx, th):
         n, edges, var = split(idx, th)
@@ -1412,12 +1413,13 @@ def build_cases():
     for ty in ["void", "int32", "float32", "int64", "uint32", "uint64",
                "float64"]:
         main = ty in ("void", "int32")
+        main_th = ty in ("void", "int32", "float32")
 
-        def mk(ty=ty, main=main):
+        def mk(ty=ty, main=main, main_th=main_th):
             name = "edgelist2gr edgeType=" + ty
 
             def maxlen(th):
-                return 4 if th else (3 if main else 2)
+                return (4 if main_th else 3) if th else (3 if main else 2)
 
             def count(th):
                 return 2 * len(seqs_cached(len(EL_SYMS), maxlen(th))) - 1
@@ -1448,7 +1450,8 @@ def build_cases():
             name = "csv2gr edgeType=" + ty
 
             def maxlen(th):
-                return 4 if th else (3 if ty != "float64" else 2)
+                return (4 if ty != "float64" else 3) if th else \
+                    (3 if ty != "float64" else 2)
 
             def count(th):
                 return len(seqs_cached(len(CSV_SYMS), maxlen(th)))
@@ -1474,7 +1477,7 @@ def build_cases():
             main = ty == "int32"
 
             def maxlen(th):
-                return 4 if th else (3 if main else 2)
+                return (4 if main else 3) if th else (3 if main else 2)
 
             def count(th):
                 return 2 * len(seqs_cached(len(DM_SYMS), maxlen(th)))
@@ -1496,24 +1499,36 @@ def build_cases():
         cs.append(mk())
     # ---- gr -> gr, main set: every graph of the tier's bound --------------
     Q2 = (3, 2)
+
+    def TB(ty):  # thorough bound of the secondary conversions
+        return (3, 4) if ty == "void" else (3, 3)
     for ty in ["void", "int32"]:
         T = " edgeType=" + ty
         cs.append(graph_case("gr2tgr" + T, t_tgr, ty))
         cs.append(graph_case("gr2sgr" + T, t_sgr, ty))
         cs.append(graph_case("gr2cgr" + T, t_cgr, ty))
         cs.append(graph_case("gr2sorteddstgr" + T, t_sorteddst, ty))
-        cs.append(graph_case("gr2lowdegreegr" + T, t_lowdegree, ty,
-                             (0, 1, 2) if ty == "void" else (1,),
+        cs.append(graph_case("gr2lowdegreegr" + T + " maxDegree=1",
+                             t_lowdegree, ty, (1,),
+                             qb=(3, 3) if ty == "void" else Q2, tb=TB(ty),
                              vname=lambda k: "maxDegree=%d" % k))
-        cs.append(graph_case("gr2partdstgr" + T, t_part, ty,
-                             (("dst", 2), ("dst", 3)) if ty == "void"
-                             else (("dst", 2),),
+        cs.append(graph_case("gr2partdstgr" + T + " numParts=2", t_part, ty,
+                             (("dst", 2),),
                              vname=lambda v: "numParts=%d" % v[1]))
-        cs.append(graph_case("gr2partsrcgr" + T, t_part, ty,
-                             (("src", 2), ("src", 3)) if ty == "void"
-                             else (("src", 2),),
-                             qb=(3, 3) if ty == "void" else Q2,
+        cs.append(graph_case("gr2partsrcgr" + T + " numParts=2", t_part, ty,
+                             (("src", 2),),
+                             qb=(3, 3) if ty == "void" else Q2, tb=TB(ty),
                              vname=lambda v: "numParts=%d" % v[1]))
+        if ty == "void":
+            cs.append(graph_case("gr2lowdegreegr" + T + " maxDegree=0/2",
+                                 t_lowdegree, ty, (0, 2), qb=Q2,
+                                 vname=lambda k: "maxDegree=%d" % k))
+            cs.append(graph_case("gr2partdstgr" + T + " numParts=1/3", t_part,
+                                 ty, (("dst", 1), ("dst", 3)), qb=Q2,
+                                 vname=lambda v: "numParts=%d" % v[1]))
+            cs.append(graph_case("gr2partsrcgr" + T + " numParts=1/3", t_part,
+                                 ty, (("src", 1), ("src", 3)), qb=Q2,
+                                 vname=lambda v: "numParts=%d" % v[1]))
         cs.append(graph_case("gr2edgelist" + T, t_edgelist, ty))
     cs.append(graph_case("gr2sortedweightgr edgeType=int32", t_sortedweight,
                          "int32"))
@@ -1528,36 +1543,43 @@ def build_cases():
                          vname=lambda v: "-edgeType=%s -minValue=%d "
                          "-maxValue=%d" % v))
     cs.append(graph_case("gr2randomweightgr (input edgeType=int32)",
-                         t_randomweight, "int32", (("int32", 3, 9),),
+                         t_randomweight, "int32", (("int32", 3, 9),), qb=Q2,
+                         tb=(3, 3),
                          vname=lambda v: "-edgeType=%s -minValue=%d "
                          "-maxValue=%d" % v))
-    cs.append(graph_case("gr2mtx edgeType=int32", t_mtx, "int32", qb=Q2))
+    cs.append(graph_case("gr2mtx edgeType=int32", t_mtx, "int32", qb=Q2,
+                         tb=(3, 3)))
     cs.append(graph_case("gr2dimacs edgeType=int32", t_dimacs, "int32",
-                         qb=Q2))
+                         qb=Q2, tb=(3, 3)))
     # ---- secondary set: smaller bound in the quick tier -------------------
     for ty in ["void", "int32"]:
         T = " edgeType=" + ty
-        cs.append(graph_case("gr2randgr" + T, t_randgr, ty, qb=Q2))
+        cs.append(graph_case("gr2randgr" + T, t_randgr, ty, qb=Q2,
+                             tb=TB(ty)))
         cs.append(graph_case("gr2sorteddegreegr" + T, t_sorteddegree, ty,
-                             qb=Q2))
+                             qb=Q2, tb=TB(ty)))
         cs.append(graph_case("gr2sortedbfsgr" + T, t_sortedbfs, ty,
                              (0, 1, 2) if ty == "void" else (1,), qb=Q2,
+                             tb=TB(ty),
                              vname=lambda s: "sourceNode=%d" % s))
         for kind in ["gr2ringgr", "gr2linegr", "gr2treegr", "gr2streegr"]:
             cs.append(graph_case(kind + T, lambda c, x, n, e, t, v, k=kind:
-                                 t_overlay(c, x, n, e, t, k), ty, qb=Q2))
+                                 t_overlay(c, x, n, e, t, k), ty, qb=Q2,
+                                 tb=TB(ty)))
         cs.append(graph_case("gr2edgelist1ind" + T, t_edgelist, ty,
-                             ("1ind",), qb=Q2))
-        cs.append(graph_case("gr2pbbs" + T, t_pbbs, ty, qb=Q2))
+                             ("1ind",), qb=Q2, tb=TB(ty)))
+        cs.append(graph_case("gr2pbbs" + T, t_pbbs, ty, qb=Q2, tb=TB(ty)))
     cs.append(graph_case("gr2trigr edgeType=void", t_trigr, "void"))
     cs.append(graph_case("gr2adjacencylist edgeType=void", t_adjlist, "void",
                          qb=Q2))
     cs.append(graph_case("gr2binarypbbs32", t_binpbbs, "void", (32,), qb=Q2))
     cs.append(graph_case("gr2binarypbbs64", t_binpbbs, "void", (64,), qb=Q2))
-    cs.append(graph_case("gr2biggr edgeType=int32", t_biggr, "int32", qb=Q2))
+    cs.append(graph_case("gr2biggr edgeType=int32", t_biggr, "int32", qb=Q2,
+                         tb=(3, 3)))
     cs.append(graph_case("gr2pbbsedges edgeType=int32", t_pbbsedges, "int32",
-                         qb=Q2))
-    cs.append(graph_case("gr2rmat edgeType=int32", t_rmat, "int32", qb=Q2))
+                         qb=Q2, tb=(3, 3)))
+    cs.append(graph_case("gr2rmat edgeType=int32", t_rmat, "int32", qb=Q2,
+                         tb=(3, 3)))
     for ty in ["float32", "int64", "uint64", "float64"]:
         cs.append(graph_case("gr2tgr edgeType=" + ty, t_tgr, ty, qb=Q2,
                              tb=(3, 3)))
@@ -1566,7 +1588,8 @@ def build_cases():
     # version 2 input files (64-bit destinations)
     for ty in ["void", "int32"]:
         cs.append(graph_case("gr2edgelist (version 2 input) edgeType=" + ty,
-                             t_edgelist, ty, ("v2",), qb=Q2, tb=(3, 3)))
+                             t_edgelist, ty, ("v2",), qb=Q2, tb=(3, 3),
+                             key="gr2edgelist(version-2-input)"))
     # ---- the graph without nodes, through every gr -> * conversion ---------
     EMPTY = [
         ("gr2tgr", t_tgr, None), ("gr2sgr", t_sgr, None),
@@ -1609,7 +1632,12 @@ def build_cases():
 
             def run(idx, th):
                 k, fn, var = convs[idx]
-                fn(k + "(n=0)", describe(idx, th), 0, [], ty, var)
+                try:
+                    fn(k, describe(idx, th), 0, [], ty, var)
+                except Fail as f:  # one key per conversion for this input
+                    sym = f.key.rsplit(":", 1)[1]
+                    fail(k + "(n=0):" + (sym if sym in ("tool-failed", "hang")
+                                         else "malformed-output"), f.msg)
                 return False, idx
             return Case(name, lambda th: len(convs), run, describe)
         cs.append(mk())
